@@ -755,6 +755,23 @@ def replay_b(v):
             return cls(filename=p), p
 
         protected = key in cls._PROTECTED_KEYS or key.startswith("__")
+        if v["obligation"].startswith("internal name"):
+            # a name the class's own methods store on self / a settable property: attribute
+            # syntax must reach the object, never the data
+            o, p = mk("a.json", {"s": 1, key: 2} if v["method"] == "__delattr__" else {"s": 1})
+            val = os.path.join(d, "other.json") if key == "filename" else 5
+            try:
+                if v["method"] == "__setattr__":
+                    setattr(o, key, val)
+                else:
+                    delattr(o, key)
+                err = None
+            except Exception as e:
+                err = e
+            fa = _json.load(open(p))
+            bad = (key in fa) if v["method"] == "__setattr__" else (key not in fa or isinstance(err, KeyError))
+            detail.append(f"{v['method']}(obj, {key!r}) on a collection whose class stores/defines {key!r} itself: file now {fa!r} (raised {err!r})")
+            return bad, detail
         if v["method"] == "__setattr__":
             o, p = mk("a.json", {"s": 1})
             try:
@@ -815,6 +832,27 @@ def replay_b(v):
         shutil.rmtree(d, ignore_errors=True)
 
 
+def replay_b_subprocess(v):
+    """replay_b in a fresh interpreter: the untouched library on real files (no
+    environment model may be installed in the replaying process)."""
+    import json as _json
+    import os
+    import subprocess
+
+    env = dict(os.environ)
+    env.pop("VF_MODE", None)
+    code = "import json,sys; import harness.C18 as c; print('RB ' + json.dumps(c.replay_b(json.loads(sys.stdin.read()))))"
+    try:
+        p = subprocess.run([sys.executable, "-c", code], input=_json.dumps(v), capture_output=True, text=True, timeout=120, env=env, cwd=os.path.dirname(os.path.dirname(os.path.abspath(__file__))))
+        for line in p.stdout.splitlines():
+            if line.startswith("RB "):
+                bad, detail = _json.loads(line[3:])
+                return bool(bad), detail
+        return False, ["replay subprocess gave no result: " + (p.stdout + p.stderr)[-800:]]
+    except Exception as e:
+        return False, [f"replay subprocess failed: {e!r}"]
+
+
 FUNCTIONS = [
     "synced_collections.data_types.attr_dict:AttrDict.__getattr__",
     "synced_collections.data_types.attr_dict:AttrDict.__setattr__",
@@ -852,7 +890,7 @@ def main(tier, seed):
     viol_records = []
     mismatches = []
     for v in b["violations"]:
-        bad, detail = replay_b(v)
+        bad, detail = replay_b_subprocess(v)
         rec = {"property": PID, "harness": "harness.C18.engine_b", "engine": "B", "counterexample": v, "replay": {"outcome": "fail" if bad else "pass", "detail": detail}}
         if bad:
             viol_records.append(rec)
